@@ -135,6 +135,7 @@ type reqCase struct {
 	Kind   string   `json:"kind"`         // spawn | app
 	Flags  flagsJ   `json:"flags"`        // the target's flags for this connection: its acceptor's (target accepts) or its route's (target dials)
 	NodeFl flagsJ   `json:"node_flags"`   // the target's node-level flags (NetworkOptions.Flags): used when the connection has none of its own
+	Forge  int      `json:"forge"`        // spawn only: the request claims a parent process on peer <Forge> (0 = honest); the grant must still be decided by the connected peer
 	Dial   bool     `json:"dial"`         // the TARGET opened the connection; the request comes back over it from the accepting side
 	Expose bool     `json:"expose"`       // the requester's exposure switch FOR THIS KIND of request
 	ExpOth bool     `json:"expose_other"` // its switch for the other kind (must not matter)
@@ -267,7 +268,16 @@ func execReq(p *reqPair, c reqCase) (obs string, envSeen bool, hist []string) {
 	}
 	var err error
 	var pids []gen.PID
-	if c.Kind == "spawn" {
+	if c.Kind == "spawn" && c.Forge > 0 {
+		// a crafted request: parent / leader pids on another node's name (one the table may well enable)
+		type routeSpawner interface {
+			RouteSpawn(node gen.Atom, name gen.Atom, options gen.ProcessOptionsExtra, source gen.Atom) (gen.PID, error)
+		}
+		forged := gen.PID{Node: peer(c.Forge), ID: 1001, Creation: p.a.Creation()}
+		var pid gen.PID
+		pid, err = p.a.(routeSpawner).RouteSpawn(p.b.Name(), nameAtom(c.Name), gen.ProcessOptionsExtra{ParentPID: forged, ParentLeader: forged, ParentLogLevel: gen.LogLevelInfo}, p.a.Name())
+		pids = append(pids, pid)
+	} else if c.Kind == "spawn" {
 		var pid gen.PID
 		pid, err = p.remote.Spawn(nameAtom(c.Name), gen.ProcessOptions{})
 		pids = append(pids, pid)
@@ -328,6 +338,11 @@ func runReq(n int, out, replay string) {
 				cases = append(cases, reqCase{Kind: k, Flags: fl, Rogue: true, Name: 1, Ops: []tabOp{{true, 1, b2i(k == "spawn"), nil}}})
 			}
 		}
+		// a spawn request that claims a parent on a node the name IS enabled for, sent by a peer it is not enabled for
+		for _, dial := range []bool{false, true} {
+			cases = append(cases, reqCase{Kind: "spawn", Flags: flagsOf(gen.DefaultNetworkFlags), Dial: dial, Forge: 2, Name: 1, Ops: []tabOp{{true, 1, 1, []int{2}}}})
+			cases = append(cases, reqCase{Kind: "spawn", Flags: flagsOf(gen.DefaultNetworkFlags), Dial: dial, Forge: 2, Name: 1, Ops: []tabOp{{true, 1, 1, []int{1, 2}}}})
+		}
 		// the two exposure switches are independent: the environment travels with a spawn request only under the
 		// spawn switch, with an application-start request only under the application-start switch
 		for _, k := range []string{"spawn", "app"} {
@@ -350,6 +365,9 @@ func runReq(n int, out, replay string) {
 					// make the requester (peer 1) and the requested name matter
 					c := reqCase{Kind: t.Kind, Flags: fl, Expose: ex, Ops: t.Ops, Name: 1 + r.Intn(2)}
 					c.ExpOth = r.Intn(2) == 0
+					if c.Kind == "spawn" && r.Intn(4) == 0 {
+						c.Forge = 2 + r.Intn(2)
+					}
 					c.NodeFl = nodeConfigs[r.Intn(len(nodeConfigs))]
 					c.Dial = r.Intn(2) == 0
 					cases = append(cases, c)
@@ -413,6 +431,9 @@ func runReq(n int, out, replay string) {
 		o.Stats["obs:"+obs]++
 		if env {
 			o.Stats["env-arrived"]++
+		}
+		if c.Forge > 0 {
+			o.Stats["forged-parent"]++
 		}
 		if c.Expose != c.ExpOth {
 			o.Stats["exposure-switches-differ"]++
